@@ -3,6 +3,7 @@ CONSTANTS
   MaxH = 10
   Page = 3
   TSet = {0}
+  RSet = {}
   RUB = FALSE
   MTB = 1
   GCP = 1
